@@ -662,8 +662,16 @@ class CSSSerializer:
     def do_CSSPageRuleSelector(self, seq):
         "Serialize selector of a CSSPageRule"
         out = Out(self)
-        for item in seq:
-            if item.type == 'IDENT':
+        items = list(seq)
+        for i, item in enumerate(items):
+            # (name and pseudo page are one word: no space before a pseudo
+            # page which follows a name, whatever comments are in between)
+            tight = item.type == 'IDENT' or (
+                item.type == 'COMMENT'
+                and any(x.type == 'IDENT' for x in items[:i])
+                and any(x.type == 'pseudo' for x in items[i + 1 :])
+            )
+            if tight:
                 out.append(item.value, item.type, space=False)
             else:
                 out.append(item.value, item.type)
